@@ -109,3 +109,14 @@ Definition er_bad (cases : list (list nat * nat * nat * bool * list (list nat)))
   bad_index (fun '(draws, n, m, multi, obs) => edges_match (er_edges draws n m multi) obs) cases O.
 Definition fast_bad (cases : list (list (nat * pkind) * list nat * nat * list (list nat))) :=
   bad_index (fun '(spec, draws, n, obs) => edges_match (fast_edges spec draws n) obs) cases O.
+
+(* ---------- complete_hypergraph(N, order, max_order, include_singletons): the edge list ---------- *)
+Definition complete_edges (n : nat) (sizes : list nat) : list (list nat) := flat_map (fun r => combs (seq 0 n) r) sizes.
+Definition complete_sizes (order max_order : option nat) (incl : bool) : list nat :=
+  match order, max_order with
+  | Some d, _ => [d + 1]
+  | None, Some mo => let start := if incl then 1 else 2 in seq start (mo + 2 - start)
+  | None, None => []
+  end.
+Definition complete_bad (cases : list (nat * option nat * option nat * bool * list (list nat))) :=
+  bad_index (fun '(n, order, mo, incl, obs) => lists_eqb (complete_edges n (complete_sizes order mo incl)) obs) cases O.
